@@ -187,6 +187,25 @@ def step (s : TSt) (op impl : String) : TSt × StepOut :=
           else if !t.validateRemoteAddr a then "check:wrong-address"
           else (if t.isRetryToken then "check:expired-retry" else "check:expired-newtoken")
       return (s, { model := withTail s!"{fmtDecoded d false} valid={if valid then 1 else 0}", tags := [tag], fails := fails })
+  | ["initial", kid, tok, addr, wr, age, idle] =>
+    match resolveTok s tok, parseAddr addr with
+    | none, _ => (s, { model := "skip" })
+    | _, none => (s, { model := "bad-op" })
+    | some b, some a => Id.run do
+      let kid := natOf kid
+      -- Transport.Listen: MaxTokenAge 0 means the default
+      let maxAge := if intOf age == 0 then Uquic.Gen.AmpToken.defaultMaxTokenAge else intOf age
+      let retryAge := maxRetryTokenAge (intOf idle)
+      let dcid : Bytes := [1, 2, 3, 4, 5, 6, 7, 8]
+      let out := handleInitial (cryptoOf s.log) (codecOf s.log) (secretOf kid) b dcid a now maxAge retryAge (wr == "1")
+      let (text, tag) := match out with
+        | .invalidToken => ("drop", "initial:invalid-retry-token")
+        | .retry => ("retry", "initial:retry")
+        | .proceed av _ _ _ => (s!"proceed av={if av then 1 else 0}", if av then "initial:verified" else "initial:unverified")
+        | .panic => ("PANIC", "initial:panic")
+      let implVerified := implHead == "proceed" && field iw "av=" == some "1"
+      let fails := judge kid b (some a) (maxAge, Uquic.Spec.TokenMon.retryLimit (intOf idle)) (if implVerified then "ok" else "err") implVerified
+      return (s, { model := withTail text, tags := [tag], fails := fails })
   | ["sleep", _] => (s, { model := withTail "ok", tags := ["sleep"] })
   | _ => (s, { model := "bad-op" })
 
